@@ -140,15 +140,15 @@ func tsPackets(b []byte) (pkts []tsPkt, rest int) {
 
 // tsSection is a decoded PAT or PMT section.
 type tsSection struct {
-	tableID     byte
-	ext         uint16 // transport_stream_id / program_number
-	version     uint8
-	current     bool
+	tableID      byte
+	ext          uint16 // transport_stream_id / program_number
+	version      uint8
+	current      bool
 	secNum, last uint8
-	pcrPID      uint16
-	programInfo []byte
-	programs    [][2]uint16 // PAT: program_number, PID
-	streams     []tsStream  // PMT
+	pcrPID       uint16
+	programInfo  []byte
+	programs     [][2]uint16 // PAT: program_number, PID
+	streams      []tsStream  // PMT
 }
 type tsStream struct {
 	typ  uint8
